@@ -225,6 +225,18 @@ func (p c04) Gen(r *simhook.Rand, tier string, idx int) harness.Scenario {
 		sc.Faults = append(sc.Faults, Fault{Kind: "freeze-view", Node: n, AfterSend: at})
 		sc.Faults = append(sc.Faults, Fault{Kind: "thaw-view", Node: n, AfterSend: at + r.Intn(600)})
 	}
+	if r.Chance(1, 4) {
+		// a slow node: one master (the migration target when it starts empty) holds its replies back for 6-26 simulated
+		// seconds, longer than the 5 s pause between slot refreshes: redirected requests are still outstanding on its
+		// connection when the refresh they triggered runs
+		n := r.Intn(m)
+		if emptyTarget {
+			n = m - 1
+		}
+		sc.Faults = append(sc.Faults, Fault{Kind: "stall", Node: n, AfterSend: r.Intn(300)})
+		sc.Faults = append(sc.Faults, Fault{Kind: "unstall", Node: n, AtMs: 6000 + r.Intn(20000)})
+	}
+	sc.MigStepMs = []int{0, 0, 0, 50, 2000, 7000}[r.Intn(6)]
 	sort.SliceStable(sc.Faults, func(i, j int) bool { return sc.Faults[i].AfterSend < sc.Faults[j].AfterSend })
 	sc.IdleFaults = true
 	// after everything settled (well beyond the periodic refresh) the layout must be learned: probes see no
@@ -386,6 +398,26 @@ func (p c04) Run(t *testing.T, s harness.Scenario) harness.Outcome {
 			ci := connIdx[c.Name]
 			for _, sn := range c.Sent {
 				if !sn.Answered {
+					// sent and not (yet) answered - e.g. the reply is held back by a slow node: the command may or may not
+					// have taken effect, at any time after its invocation
+					pa := world.BinsToBytes(c.Script[sn.Idx].Args)
+					pn := strings.ToLower(string(pa[0]))
+					var pins [][][]byte
+					switch {
+					case pn == "mset":
+						for i := 1; i+1 < len(pa); i += 2 {
+							pins = append(pins, [][]byte{[]byte("set"), pa[i], pa[i+1]})
+						}
+					case pn == "mget":
+					default:
+						if redisWrite[pn] && len(pa) > 1 {
+							pins = [][][]byte{pa}
+						}
+					}
+					for _, in := range pins {
+						k := string(in[refredis.KeyIndex(string(in[0]))])
+						byKey[k] = append(byKey[k], porcupine.Operation{ClientId: ci, Input: c04In{conn: ci, idx: sn.Idx, args: in, indet: true}, Call: sn.InvokeStep, Output: resp2.Value{}, Return: 1 << 60})
+					}
 					continue
 				}
 				sentOf[[2]int{ci, sn.Idx}] = sn
